@@ -10,6 +10,34 @@ TB = ("TLC 1.8 + CommunityModules Json/IOUtils; the Python harness only drives, 
       "exact rational inputs) and logs; NumPy/SciPy for environment steps")
 
 CLAIMS = {
+    "C04": dict(
+        technique="TLA+ specification of the recreate-from-average strategies (Rfa.tla) model-checked by TLC; TLC trace validation of replayed real runs (structure clauses)",
+        text="On every lattice behaviour (series x n x window x 20 parameter combinations) TLC checks that the specification's output has "
+             "the n-fold grid structure, emits the behaviour, and judges the recorded real run: NumPy 1-D float arrays of equal length "
+             "(m-1)n+1, finite, abscissae = n-fold linspace of x, strictly increasing, every n-th abscissa bit-identical to the input; "
+             "larger random series (m <= 60, n <= 64, int/float/list) and rejects of n < 2 go through the same judge.",
+        ref="DESIGN.md 4 (C04)", note=TB),
+    "C05": dict(
+        technique="TLA+ specification of the window strategies (Rfa.tla) with the property's order clauses (JRfa.tla) model-checked by TLC; TLC evaluates the same clauses on recorded real runs",
+        text="TLC shows that the specification's output satisfies side-wise bounds, the plateau count/contiguity and monotone runs for "
+             "every allowed adaptive window vector on the lattice, and evaluates exactly these order/equality clauses on the recorded "
+             "output of every replayed behaviour and of seeded random runs with real alpha/beta/exponent/smoothing (no tolerance needed: "
+             "rounding to a grid is monotone). Known finding F10 (exponent < 0.13296, monotone clause) is reported as KNOWN-FINDING.",
+        ref="DESIGN.md 4 (C05), 5 #10", note=TB + "; cubic spline constrained at the nodes only"),
+    "C06": dict(
+        technique="TLA+ closed forms (FunFit.tla) and documented geometry (Rfa.tla) model-checked by TLC; recorded values compared with the exact model by TLC",
+        text="TLC checks end points, convexity and affinity of the five shape functions and the border-interpolation / larger-jump-"
+             "smaller-window geometry on the model, then compares every recorded value of the replayed lattice behaviours and of random "
+             "exact-parameter runs with the exact rational model (1e-8), given the recorded adaptive windows which must be among the "
+             "values the specification allows; real exponents are covered by end-point / blend identities and by observing bitwise the "
+             "exponent that reaches the shape functions.",
+        ref="DESIGN.md 4 (C06)", note=TB + "; exact recomputation for exponents in {1/2,1,3/2,2,5/2,3,4} (shape functions) and 1..3 (strategies)"),
+    "C07": dict(
+        technique="TLA+ relational properties of Rfa.tla (commutation, locality, linearity, weights) model-checked by TLC; TLC judges the relations on recorded tuples of real runs",
+        text="TLC proves the four relations exactly on every lattice series / unit change / perturbation / unit vector and emits each "
+             "tuple of runs; the same tuples (and seeded random ones, with exactly representable maps for the adaptive strategies) are "
+             "executed on the real code and TLC evaluates the relations directly on the recorded values in fixed point.",
+        ref="DESIGN.md 4 (C07)", note=TB + "; relations judged at 1e-5 absolute"),
     "C10": dict(
         technique="TLA+ definition (Search.tla) + PlusCal transcription of the scans model-checked by TLC; TLC trace validation of replayed real calls",
         text="TLC proves the three two-pointer scans (PlusCal transcription) equal the declarative definition on every array/query "
